@@ -34,6 +34,9 @@ pub enum Step {
     Settle,
     /// next() on the stream of op #i
     Next(usize),
+    /// next() on the stream of op #i polled ONCE and, if still pending, dropped (a caller's `select!` /
+    /// own timer giving up on the wait); no model event: a wait that ends pending changes nothing
+    NextCancel(usize),
     Finish(usize),
     /// the stream of search `i` is dropped WITHOUT finish(): its receiver goes, no scrub is sent
     DropStream(usize),
@@ -105,6 +108,7 @@ pub fn frame_bytes(id: i64, op: u64, good: bool, tok: u64) -> Vec<u8> {
 
 enum Cmd {
     Next,
+    NextCancel,
     Finish,
     Drop,
     Via,
@@ -231,6 +235,43 @@ pub fn run_script(steps: &[Step]) -> Outcome {
                                                         verif_trace(format!("cli next {} {} {}", i, match dl { Some(d) => d.to_string(), None => String::from("none") }, txt));
                                                     }
                                                 }
+                                                Cmd::NextCancel => {
+                                                    let active = stream.state() == ldap3::StreamState::Active;
+                                                    let polled = {
+                                                        let mut fut = Box::pin(stream.next());
+                                                        futures_util::poll!(&mut fut)
+                                                    };
+                                                    match polled {
+                                                        std::task::Poll::Pending => verif_trace(format!("cli nextcancelled {}", i)),
+                                                        std::task::Poll::Ready(r) => {
+                                                            let txt = match r {
+                                                                Ok(Some(re)) => {
+                                                                    let t = match &re.0.payload {
+                                                                        PL::C(ks) if !ks.is_empty() => match &ks[0].payload {
+                                                                            PL::P(b) => tok_of_text(std::str::from_utf8(b).unwrap_or("")),
+                                                                            _ => None,
+                                                                        },
+                                                                        _ => None,
+                                                                    };
+                                                                    format!("item:entry:{}", t.unwrap_or(0))
+                                                                }
+                                                                Ok(None) => {
+                                                                    if active {
+                                                                        done_seen = true;
+                                                                        let t = stream.res.as_ref().and_then(|r| tok_of_text(&r.text));
+                                                                        format!("item:done:{}", t.unwrap_or(0))
+                                                                    } else {
+                                                                        String::from("inactive")
+                                                                    }
+                                                                }
+                                                                Err(e) => err_text(&e),
+                                                            };
+                                                            if txt != "inactive" {
+                                                                verif_trace(format!("cli next {} none {}", i, txt));
+                                                            }
+                                                        }
+                                                    }
+                                                }
                                                 Cmd::Drop => {
                                                     // for the model this is `finish` without a scrub: the receiver goes
                                                     if stream.state() != ldap3::StreamState::Closed {
@@ -319,6 +360,12 @@ pub fn run_script(steps: &[Step]) -> Outcome {
                         Step::Next(i) => {
                             if let Some(Some(tx)) = cmd_tx.get(i) {
                                 let _ = tx.send(Cmd::Next);
+                            }
+                            tokio::task::yield_now().await;
+                        }
+                        Step::NextCancel(i) => {
+                            if let Some(Some(tx)) = cmd_tx.get(i) {
+                                let _ = tx.send(Cmd::NextCancel);
                             }
                             tokio::task::yield_now().await;
                         }
@@ -432,7 +479,7 @@ pub fn to_model_events(trace: &[String]) -> String {
             ("cli", "done") => out.push(format!("poll {} {}", w[2], w[3])),
             ("cli", "next") => out.push(format!("recv {} {} {}", w[2], w[3], w[4])),
             ("cli", "finish") => out.push(format!("finish {} {}", w[2], w[3])),
-            ("cli", "finished") | ("cli", "streamdropped") => {}
+            ("cli", "finished") | ("cli", "streamdropped") | ("cli", "nextcancelled") => {}
             ("drv", "scrub") => out.push(format!("drvscrub {}", w[2])),
             ("drv", "op") => {
                 // the arm's effects take place when the write has completed (`drv sent`), failed
